@@ -399,7 +399,11 @@ func runC14() {
 	}
 	distinct := map[string]bool{}
 	var cases []string
-	type cand struct{ x, y interface{}; got interface{}; err error }
+	type cand struct {
+		x, y interface{}
+		got  interface{}
+		err  error
+	}
 	for xi := range kinds {
 		kx := &kinds[xi]
 		gx := gridOf(kx, rng, extra)
